@@ -688,7 +688,7 @@ func (e Engine) Run(t *simrt.Tape, c simrt.Case, x *simrt.Ctx) *simrt.Result {
 	for pi, p := range parts {
 		go func(pi int, p *part) {
 			run := exec.Command(filepath.Join(dir, "driver"))
-			run.Env = append(os.Environ(), "GOGC=800")
+			run.Env = append(os.Environ(), "GOGC=300", "GOMEMLIMIT=2GiB") // the emitted stack allocates a block per token: keep the collector close
 			run.Stdin = &p.in
 			run.Stdout, run.Stderr = &p.so, &p.se
 			p.err = run.Run()
